@@ -234,7 +234,7 @@ func cmdCheck(args []string) int {
 	}
 	seed, _ := strconv.ParseInt(os.Getenv("VERIF_SEED"), 10, 64)
 	t0 := time.Now()
-	timeoutMs := 10000
+	timeoutMs := 30000 // undecided obligations cost this much; refutations and proofs are usually far quicker
 	if *tier == "thorough" {
 		timeoutMs = 120000
 	}
@@ -565,6 +565,8 @@ func (w *World) extraObligations(run *checkRun) {
 		}
 	case "C20":
 		w.stringerObligations(run)
+	case "C03":
+		w.routerObligations(run)
 	case "C15":
 		fr := &FuncResult{Fn: "profile tables"}
 		run.results = append(run.results, fr)
